@@ -73,6 +73,16 @@ def gen(chk):
                  ["[OP_1  OP_2]"], ["[OP_1\tOP_2\n0x05]"], ["[OP_1 # comment\n OP_2]"], ["[OP_1 #c]"], ["[]"], ["[ ]"], ["[[]]"], ["[[OP_1]"], ["[OP_1]]"],
                  ["[a]b"], ["[OP_1 [OP_2]"], ["]"], ["[", "]"], ["OP_1]"], [""], ["", "OP_1"], ["[OP_1", ""], ["[OP_1", "", "OP_2]"]):
         add(toks, seqs)
+    # separators glued to tokens inside a bracketed body: a comment directly after a token (no blank), before the closing bracket, tabs / CR /
+    # newlines between tokens, several comments - the token in front of a '#' must not get lost
+    glue_atoms = ["OP_DUP", "0xabcd", "5", "OP_HASH160", "0x1234", "OP_2", "17", "ab"]
+    for _ in range(60 if chk.tier == "quick" else 1500):
+        body = ""
+        for _ in range(rng.randrange(1, 6)):
+            body += rng.choice(glue_atoms) + rng.choice(["# c\n", "#\n", "#x y\n", " # c\n", "\t", "\n", "\r\n", " ", "  ", "#c\r"])
+        body += rng.choice(["", "OP_3", "OP_3#", "OP_3# end", "#only"])
+        add(["[" + body + "]"], seqs)
+        add(["OP_1", "[OP_IF " + body + " OP_ENDIF]"], seqs)
     S["sequences"] = seqs
     return S
 
